@@ -36,6 +36,7 @@ def run(repo: Repo, chk: Check) -> None:
     order(repo, chk)
     search(repo, chk)
     accelerator(repo, chk)
+    merge(repo, chk)
 
 
 # --------------------------------------------------------------------------- abstract path enumeration
@@ -284,3 +285,73 @@ def accelerator(repo: Repo, chk: Check) -> None:
                     okg = True
     chk.result(okg, "C20.accelerator", f"{gv.key}:values", gv.where,
                "one constant per decoded switch value, decoded against the accelerator's own PE")
+
+
+# --------------------------------------------------------------------------- merging keeps earlier kernels decodable
+COMBINE = "snaxc/phs/combine.py"
+
+
+def merge(repo: Repo, chk: Check) -> None:
+    chk.rule(
+        "C20.merge",
+        "merging: a routing conflict at operand i gets its OWN new mux (default connection on lhs, the conflicting one on rhs) controlled by a fresh "
+        "switch from add_switch(), inserted before the consumer, and operand i of the consumer is rerouted to it; an operand is left alone only "
+        "under are_equivalent; a new choose gets a fresh switch; existing chooses only gain operations",
+        floor=5,
+    )
+    f, fl = flow_of(repo, chk, COMBINE, "uncollide_inputs")
+    abst = f.param(1)
+    key = f.key
+    stores = [s for s in fl.stmts(ast.Assign) if s.reachable and isinstance(s.node.targets[0], ast.Subscript) and norm.match(T(f"{abst}.operands[$i]"), s.node.targets[0]) is not None]
+    if not stores:
+        raise AnalysisError(f"{f.where}: rerouting store `{abst}.operands[i] = ...` not found")
+    for s in stores:
+        idx = s.node.targets[0].slice
+        lp = [l for l in s.loops if isinstance(l, ast.For)]
+        enum_ok = bool(lp) and norm.match(T(f"enumerate(zip($o.data_operands, {abst}.data_operands, strict=True))"), lp[-1].iter) is not None
+        iv = lp[-1].target.elts[0].id if enum_ok and isinstance(lp[-1].target, ast.Tuple) and isinstance(lp[-1].target.elts[0], ast.Name) else None
+        idx_e = s.expand(idx)
+        chk.result(enum_ok and ((isinstance(idx, ast.Name) and idx.id == iv) or (isinstance(idx_e, ast.Name) and idx_e.id == iv)), "C20.merge", f"{key}:own-slot", s.where(),
+                   "the operand that is rerouted is the one whose routing conflicts (same index, strict zip of both operand lists)",
+                   "the rerouted operand index is not the index of the conflicting operand pair")
+        conflict = bool(has_fact(s, ["not are_equivalent($a, $b)"]))
+        chk.result(conflict, "C20.merge", f"{key}:only-on-conflict", s.where(), "an operand is rerouted only when are_equivalent fails for it",
+                   "an operand is rerouted although its routing is equivalent (or without testing)", s.fact_texts)
+        # on every path class the new operand is the result of a mux constructed here with a fresh switch
+        fresh_all = bool(s.state.alts)
+        lhs_rhs = True
+        for alt in s.state.alts:
+            from sa.flow import expand
+
+            v = expand(s.node.value, alt.env)
+            ms = [m for _, m in norm.find(T("phs.MuxOp(lhs=$l, rhs=$r, switch=$sw)"), v)] + [m for _, m in norm.find(T("MuxOp(lhs=$l, rhs=$r, switch=$sw)"), v)]
+            if not ms:
+                fresh_all = False
+                continue
+            m = ms[0]
+            if not norm.contains(m["sw"], T("$g.add_switch()")):
+                fresh_all = False
+            if not (norm.contains(m["r"], T("get_equivalent_owner($o, $g)")) and not norm.contains(m["l"], T("get_equivalent_owner($o, $g)"))):
+                lhs_rhs = False
+        chk.result(fresh_all, "C20.merge", f"{key}:own-mux-fresh-switch", s.where(),
+                   "on every path the conflicting operand is rerouted to a mux built for it with a fresh add_switch()",
+                   "on some path the operand is rerouted to a mux that was not built for this conflict with a fresh switch (e.g. an existing mux is re-used): two operand "
+                   "slots share one switch while are_equivalent treats them as independent, so a kernel merged earlier can become undecodable")
+        chk.result(lhs_rhs, "C20.merge", f"{key}:default-on-lhs", s.where(), "the existing (default) connection is the mux's lhs, the conflicting one its rhs",
+                   "the default / conflicting connections of the new mux are exchanged: switch value 0 no longer selects the connection earlier kernels use")
+    ins = [s for s in fl.calls("insert_op_before") if s.reachable]
+    chk.result(any(len(s.node.args) >= 2 and norm.match(T(abst), s.node.args[1]) is not None for s in ins), "C20.merge", f"{key}:mux-before-consumer", ins[0].where() if ins else f.where,
+               "the mux is inserted before the op that consumes it")
+    # append_to_abstract_graph
+    g, gfl = flow_of(repo, chk, COMBINE, "append_to_abstract_graph")
+    news = [s for s in gfl.calls("from_operations") if s.reachable]
+    okn = any(bool(has_fact(s, ["$g.get_choose_op($id) is None"])) and len(s.node.args) >= 3 and norm.contains(gfl.cone(s.node.args[2], s, inline=0), T("$g.add_switch()")) for s in news)
+    chk.result(okn, "C20.merge", f"{g.key}:new-choose-fresh-switch", news[0].where() if news else g.where,
+               "a choose that does not exist yet is created with a fresh switch", "a new choose is not created under `get_choose_op(id) is None` with a fresh add_switch()")
+    unc = [s for s in gfl.calls("uncollide_inputs") if s.reachable]
+    oku = len(unc) >= 2 and any(norm.contains(s.node.args[1], T("$g.get_terminator()")) for s in unc if len(s.node.args) > 1)
+    chk.result(oku, "C20.merge", f"{g.key}:uncollide-all", unc[0].where() if unc else g.where,
+               "routing conflicts are resolved for every existing choose and for the terminator", "uncollide_inputs is not applied to both the existing chooses and the terminator")
+    ins_ops = [s for s in gfl.calls("insert_operations") if s.reachable]
+    oki = bool(ins_ops) and bool(unc) and all(s.line > min(u.line for u in unc) for s in ins_ops)
+    chk.result(oki, "C20.merge", f"{g.key}:operations-added", ins_ops[0].where() if ins_ops else g.where, "missing operations are added to an existing choose after its inputs were uncollided")
